@@ -403,6 +403,9 @@ func (c *c07) Run(cs core.Case) core.Result {
 					if r.Done().Counters["singular_systems"] == before {
 						r.Violate("harness-construction", "constructed system n=(%d,%d) e=(%d,%d) is not singular by the reference: construction error", n1, n2, e1, e2)
 					}
+					// the same dependent pair with a spare parity shard after it: the
+					// format forces the two lowest-numbered ones, so this is still an error
+					c.trial(r, "vandermonde", coder, d, pcount, 2, data, parity, []int{i1, i2}, []int{e1, e2, e2 + 1}, false)
 					// non-singular neighbour: next exponent
 					c.trial(r, "vandermonde", coder, d, pcount, 2, data, parity, []int{i1, i2}, []int{e1, e2 + 1}, false)
 					found++
